@@ -80,30 +80,91 @@ let run_line toks =
        | PrepErr (_, false) -> "cfgerrB"
        | _ ->
       let now = ref (z_of_string (valof nowt)) in
-      let st = ref zeros16 in
+      (* encryptor objects of side A: explicit state (iv_enc, iv_dec); the nonce of object k is the decryption of
+         the first cipher block of the first cookie it issued (token C0@k=), given before the operations *)
+      let nonces : (int, n list) Hashtbl.t = Hashtbl.create 8 in
+      List.iter (fun t ->
+        if String.length t > 3 && String.sub t 0 3 = "C0@" then begin
+          let i = String.index t '=' in
+          let k = int_of_string (String.sub t 3 (i - 3)) in
+          (match pa with PrepOk (CAes (ck, _, _)) -> Hashtbl.replace nonces k (d ck (bytes_of_hex (valof t))) | _ -> ())
+        end) rest;
+      let fresh k = { iv_enc = (match Hashtbl.find_opt nonces k with Some v -> v | None -> zeros16); iv_dec = zeros16; iv_init = true } in
+      let objs : (int, cbcobj) Hashtbl.t = Hashtbl.create 8 in
+      let nobj = ref 1 in
+      let cur = ref 0 in
+      Hashtbl.replace objs 0 (fresh 0);
+      let objb = ref { iv_enc = zeros16; iv_dec = zeros16; iv_init = true } in
       let out = Buffer.create 256 in
       Buffer.add_string out "ok";
       List.iter (fun t ->
-        if String.length t > 3 && String.sub t 0 3 = "C0=" then
-          (match pa with PrepOk (CAes (ck, _, _)) -> st := d ck (bytes_of_hex (valof t)) | _ -> ())
-        else if String.length t > 4 && String.sub t 0 4 = "now=" then now := z_of_string (valof t)
+        if String.length t > 4 && String.sub t 0 4 = "now=" then now := z_of_string (valof t)
+        else if t = "new" then begin Hashtbl.replace objs !nobj (fresh !nobj); cur := !nobj; incr nobj end
+        else if String.length t > 4 && String.sub t 0 4 = "obj:" then cur := int_of_string (String.sub t 4 (String.length t - 4))
         else if String.length t > 2 && (String.sub t 0 2 = "S:" || String.sub t 0 2 = "X:") then begin
           let q = split_on ':' t in
           (match pa with
            | PrepErr (_, _) -> Buffer.add_string out (" " ^ String.make 1 t.[0] ^ "=EXC")
            | PrepOk c ->
+               let o = Hashtbl.find objs !cur in
                if t.[0] = 'S' then begin
-                 let (ck, st') = cookies_save hmac e c !st (bytes_of_hex (List.nth q 1)) (z_of_string (List.nth q 2)) in
-                 st := st'; Buffer.add_string out (" S=" ^ hexs ck)
+                 let (ck, o') = cookies_obj_save hmac e c o (bytes_of_hex (List.nth q 1)) (z_of_string (List.nth q 2)) in
+                 Hashtbl.replace objs !cur o'; Buffer.add_string out (" S=" ^ hexs ck)
                end else begin
-                 let (ci, st') = encrypt hmac e c !st (bytes_of_hex (List.nth q 1)) in
-                 st := st'; Buffer.add_string out (" X=" ^ hexs (n_of_int 67 :: encode_str ci))
+                 (* encryptor::encrypt directly: the plaintext is the 8-byte expiry and the data *)
+                 let pl = bytes_of_hex (List.nth q 1) in
+                 let (ci, st') = encrypt hmac e c o.iv_enc pl in
+                 Hashtbl.replace objs !cur { o with iv_enc = st' };
+                 Buffer.add_string out (" X=" ^ hexs (n_of_int 67 :: encode_str ci))
                end)
         end
-        else if String.length t > 2 && String.sub t 0 2 = "L=" then
-          Buffer.add_string out (" L=" ^ load_p false pb !now (bytes_of_hex (valof t)))
+        else if String.length t > 2 && String.sub t 0 2 = "L=" then begin
+          let cookie = bytes_of_hex (valof t) in
+          (match pb with
+           | PrepOk c ->
+               let o = if cb = "=" then Hashtbl.find objs !cur else !objb in
+               let (v, o') = cookies_obj_load hmac dlen_f d c !now o cookie in
+               if cb = "=" then Hashtbl.replace objs !cur o' else objb := o';
+               Buffer.add_string out (" L=" ^ show_verdict false v)
+           | PrepErr (_, _) -> Buffer.add_string out (" L=" ^ load_p false pb !now cookie))
+        end
         else ()) rest;
       Buffer.contents out))
+  | "cbc" :: name :: key :: rest ->
+      let k = bytes_of_hex key in
+      (match cbc_key_size (bytes_of_string name) with
+       | None -> "nocbc"
+       | Some sz ->
+         if int_of_nat sz <> List.length k then "keyerr" else begin
+           let ne : (int, n list) Hashtbl.t = Hashtbl.create 4 in
+           let nd : (int, n list) Hashtbl.t = Hashtbl.create 4 in
+           List.iter (fun t ->
+             if String.length t > 3 && (String.sub t 0 2 = "NE" || String.sub t 0 2 = "ND") && String.contains t '=' then begin
+               let i = String.index t '=' in
+               let j = int_of_string (String.sub t 2 (i - 2)) in
+               Hashtbl.replace (if t.[1] = 'E' then ne else nd) j (bytes_of_hex (valof t)) end) rest;
+           let o = ref obj_fresh in
+           let nn = ref 0 in
+           let out = Buffer.create 256 in
+           Buffer.add_string out "ok";
+           List.iter (fun t ->
+             let op =
+               if t = "N" then begin
+                 let j = !nn in incr nn;
+                 Some ('N', ONonce ((match Hashtbl.find_opt ne j with Some v -> v | None -> zeros16),
+                                    (match Hashtbl.find_opt nd j with Some v -> v | None -> zeros16))) end
+               else if String.length t >= 2 && t.[1] = ':' && (t.[0] = 'I' || t.[0] = 'E' || t.[0] = 'D') then begin
+                 let v = bytes_of_hex (String.sub t 2 (String.length t - 2)) in
+                 Some (t.[0], (match t.[0] with 'I' -> OSetIv v | 'E' -> OEnc v | _ -> ODec v)) end
+               else None in
+             match op with
+             | None -> ()
+             | Some (tag, op) ->
+                 let (res, o') = obj_step e d k !o op in
+                 o := o';
+                 Buffer.add_string out (" " ^ String.make 1 tag ^ "=" ^
+                   (match res with ONoOut -> "ok" | OThrow -> "EXC" | OOut l -> hexs l))) rest;
+           Buffer.contents out end)
   | "pool" :: rest ->
       let get k = List.fold_left (fun acc t ->
         let p = k ^ "=" in
@@ -132,14 +193,48 @@ let run_line toks =
             Buffer.add_string out ("ok S=" ^ (if kvs = [] then "-" else hexs ck));
             let now = ref now0 in
             let seen_now = ref false in
+            let how = n_of_int (match get "expire" with Some "renew" -> 1 | Some "browser" -> 2 | _ -> 0) in
             List.iter (fun t ->
               if String.length t > 4 && String.sub t 0 4 = "now=" then begin
                 if !seen_now then now := z_of_string (valof t) else seen_now := true end
               else if String.length t > 2 && String.sub t 0 2 = "L=" then
                 Buffer.add_string out (" L=" ^ load_p true (PrepOk c) !now (bytes_of_hex (valof t)))
+              else if String.length t > 2 && String.sub t 0 2 = "Q=" then begin
+                (* Q=<cookie hex>~<k:v;k:v>~<first cipher block of the issued cookie or -> : one request on a NEW
+                   encryptor object: load (decrypt), set, save (encrypt) *)
+                (match split_on '~' (valof t) with
+                 | [ckh; kvspec; c0] ->
+                   let cookie = bytes_of_hex ckh in
+                   let sets = List.filter_map (fun kv -> match split_on ':' kv with [k; v] -> Some (bytes_of_hex k, bytes_of_hex v) | _ -> None) (split_on ';' kvspec) in
+                   let nonce = (match c0, c with
+                     | "-", _ -> zeros16
+                     | v, CAes (ck, _, _) -> d ck (bytes_of_hex v)
+                     | _, _ -> zeros16) in
+                   let o = { iv_enc = nonce; iv_dec = zeros16; iv_init = true } in
+                   let (v, o1) = cookies_obj_load hmac dlen_f d c !now o cookie in
+                   let loaded = (match v with
+                     | Accept (data, tin) ->
+                         (match session_load_data (nat_of_int (List.length data)) data [] with
+                          | Some l -> Some (Some (l, tin))
+                          | None -> None)
+                     | Reject _ -> Some None) in
+                   (match loaded with
+                    | None -> Buffer.add_string out " Q=EXC"
+                    | Some ld ->
+                      let base = (match ld with Some (l, _) -> l | None -> []) in
+                      let data' = kv_set_all sets base in
+                      let issued = (match si_save_decide how timeout !now ld data' with
+                        | None -> "-"
+                        | Some exp -> hexs (fst (cookies_obj_save hmac e c o1 (session_save_data data') exp))) in
+                      Buffer.add_string out (" Q=" ^ (match ld with Some _ -> "1" | None -> "0") ^ "," ^
+                        (match ld with Some (l, _) -> hexs (session_save_data l) | None -> "-") ^ "," ^
+                        (match v with Reject true -> "1" | _ -> "0") ^ "," ^ issued))
+                 | _ -> Buffer.add_string out " Q=BADSPEC")
+              end
               else ()) rest;
             Buffer.contents out))
   | "kat" :: _ -> "ok"
+  | "katseq" :: _ -> "ok"
   | _ -> "BAD-CASE"
 
 let () = main_loop run_line
